@@ -163,6 +163,12 @@ func (c *Client) validateVirtualChannelSettlementProposal(
 		return errors.New("invalid balances")
 	}
 
+	// Assert that only this sub-allocation is removed and all other locked funds stay as they are.
+	rest := parent.state().Clone()
+	if err := rest.RemoveSubAlloc(subAlloc); err != nil || !channel.SubAllocsEqual(rest.Locked, prop.State.Locked) {
+		return errors.New("other sub-allocations changed")
+	}
+
 	return nil
 }
 
